@@ -20,6 +20,7 @@ import (
 	"math"
 	"math/big"
 	"os"
+	"regexp"
 	"sort"
 	"strings"
 
@@ -495,22 +496,39 @@ func c19RandKey(r *lib.Rng, i int) *c19Val {
 	}
 }
 
-// avoid: kinds (kindLabel of the container + "/" + kindLabel of the element) listed as known
-// findings, which composite values must not contain.
-func c19RandVal(r *lib.Rng, depth int, avoid func(container, elem string) bool) *c19Val {
+// c19GenCtx: what composite values must not contain because it is a listed known finding.
+type c19GenCtx struct {
+	avoid        func(container, elem string) bool // container kind / element kind pairs
+	noEmptyVec   bool                              // zero length vectors ('nil is misread)
+	quotedNoHash bool                              // no hash table anywhere inside a vector/array (printed as a literal)
+	quotedNoFix  bool                              // no non-adjustable vector/array inside a vector/array
+	quoted       bool                              // (state) inside a vector/array
+}
+
+func c19RandVal(r *lib.Rng, depth int, g c19GenCtx) *c19Val {
 	if depth <= 0 || r.Chance(25) {
 		return c19RandAtom(r)
 	}
+	avoid := g.avoid
 	pick := func(container string) *c19Val {
+		sub := g
+		if container == "vector" || container == "array" {
+			sub.quoted = true
+		}
 		for tries := 0; tries < 20; tries++ {
-			e := c19RandVal(r, depth-1, avoid)
+			e := c19RandVal(r, depth-1, sub)
 			if !avoid(container, e.kindLabel()) {
 				return e
 			}
 		}
 		return c19Int(7)
 	}
-	switch r.Intn(10) {
+	adj := func() bool { return r.Chance(70) || (g.quoted && g.quotedNoFix) }
+	k := r.Intn(10)
+	if k >= 8 && g.quoted && g.quotedNoHash {
+		k = r.Intn(8)
+	}
+	switch k {
 	case 0, 1, 2, 3:
 		n := 1 + r.Intn(5)
 		v := &c19Val{K: "list"}
@@ -534,7 +552,10 @@ func c19RandVal(r *lib.Rng, depth int, avoid func(container, elem string) bool) 
 		return v
 	case 5, 6:
 		n := r.Intn(5)
-		v := &c19Val{K: "vec", Adj: r.Chance(70)}
+		if n == 0 && g.noEmptyVec {
+			n = 1
+		}
+		v := &c19Val{K: "vec", Adj: adj()}
 		for i := 0; i < n; i++ {
 			v.Kids = append(v.Kids, pick("vector"))
 		}
@@ -545,7 +566,7 @@ func c19RandVal(r *lib.Rng, depth int, avoid func(container, elem string) bool) 
 		for _, d := range dims {
 			size *= d
 		}
-		v := &c19Val{K: "arr", Dims: dims, Adj: r.Chance(70)}
+		v := &c19Val{K: "arr", Dims: dims, Adj: adj()}
 		for i := 0; i < size; i++ {
 			v.Kids = append(v.Kids, pick("array"))
 		}
@@ -631,6 +652,17 @@ func c19OverMargins(margins []int, all bool, check func(m int) *c19Obs) *c19Obs 
 	return first
 }
 
+// The pretty printer indents with slices of a constant of 256 blanks: a layout that needs a deeper
+// indentation is a Go slice-bounds panic. One sweep cell (pp cell=let-nested#0) shows it; composite
+// cases cannot know in advance how deep a layout will indent, so a composite case that runs into
+// exactly this fault is counted as an instance of the listed construct when the cell is listed.
+var c19IndentOverflowRe = regexp.MustCompile(`slice bounds out of range \[:\d+\] with length 257`)
+
+func c19IsIndentOverflow(c *lib.Ctx, o *c19Obs) bool {
+	return o != nil && o.Aspect == "unreadable" && c19IndentOverflowRe.MatchString(o.Observed) &&
+		c.Findings.Listed("C19", "pp cell=let-nested#0 ")
+}
+
 // c19Listify turns the function objects the reader builds for 'x, #'f and `x (cl.Quote …) back
 // into lists, so that a form built as a list and the same form read from text compare equal.
 func c19Listify(o slip.Object) slip.Object {
@@ -651,7 +683,22 @@ func c19Listify(o slip.Object) slip.Object {
 	case slip.Funky:
 		args := to.GetArgs()
 		out := make(slip.List, 0, len(args)+1)
-		out = append(out, slip.Symbol(to.GetName()))
+		name := to.GetName()
+		// the objects of the reader macros, by the operator the reader read — not by the name the
+		// object claims (the object for #'f calls itself "name")
+		switch fmt.Sprintf("%T", o) {
+		case "*cl.Quote":
+			name = "quote"
+		case "*cl.Function":
+			name = "function"
+		case "*cl.Backquote":
+			name = "backquote"
+		case "*cl.Comma":
+			name = "comma"
+		case "*cl.CommaAt":
+			name = "comma-at"
+		}
+		out = append(out, slip.Symbol(name))
 		for _, a := range args {
 			out = append(out, c19Listify(a))
 		}
@@ -897,9 +944,21 @@ func c19RunValues(c *lib.Ctx, cases []c19ValCase, allMargins bool) {
 		}
 	}
 	replies := c.Model(reqs)
+	topUnreadable := map[string]bool{}
 	for i, cs := range cases {
+		if cs.sweep {
+			// single cause: an element whose own load form cannot be read back (cell top/<e>) fails the
+			// same way wherever its form is embedded in an evaluated position
+			if ce := strings.SplitN(cs.Cell, "/", 2); len(ce) == 2 && ce[0] != "top" && ce[0] != "vector" && ce[0] != "array" && topUnreadable[ce[1]] {
+				c.Ev.Count("value_cells_skipped_same_cause", 1)
+				continue
+			}
+		}
 		margins := c19Margins(c, allMargins || cs.sweep)
 		formTerm, formText, obs := c19CheckValue(cs.Val, margins, cs.sweep)
+		if cs.sweep && obs != nil && obs.Aspect == "unreadable" && strings.HasPrefix(cs.Cell, "top/") {
+			topUnreadable[strings.TrimPrefix(cs.Cell, "top/")] = true
+		}
 		key := "v:" + string(mustJSON(cs.Val))
 		c.Ev.Case(key, cs.Val.depth() >= 1)
 		c.Ev.Hist("value_kind", cs.Val.kindLabel())
@@ -931,6 +990,10 @@ func c19RunValues(c *lib.Ctx, cases []c19ValCase, allMargins bool) {
 			if obs.Aspect == "machinery" {
 				fmt.Fprintln(os.Stderr, "c19:", obs.Observed)
 				os.Exit(2)
+			}
+			if !cs.sweep && c19IsIndentOverflow(c, obs) {
+				c.Ev.Count("composite_indent_overflow_instances", 1)
+				continue
 			}
 			c.Report(c19ValueSignature(cs, c19AspectM(obs, cs.sweep)), cs.sweep, c19ValueReplay(cs, obs, modelForm))
 		}
@@ -998,7 +1061,7 @@ var c19PPSweep = []struct{ head, src string }{
 	{"define-condition", "(define-condition my-error (error) ((code :initarg :code :reader code)) (:report \"failed\"))"},
 	{"defpackage", "(defpackage \"pack\" (:documentation \"a package\") (:nicknames \"pk\" \"p2\") (:use \"common-lisp\" \"bag\") (:export \"f1\" \"f2\"))"},
 	{"fun", "(format nil \"~A and ~S~%\" (car x) (list 1 2 (cons 3 4) \"five\" #\\6 7.5 8/9 :ten))"},
-	{"fun", "(if (and (numberp x) (or (< x 0) (> x 10))) (funcall #'f x) (apply (function g) (list x)))"},
+	{"fun", "(if (and (numberp x) (or (< x 0) (> x 10))) (funcall 'f x) (apply (function g) (list x)))"},
 	{"setq", "(setq x (quote a) y (function car) z #(1 2 (3)) w #2A((1 2) (3 4)))"},
 	{"backquote", "`(a ,b ,@c (d ,(car e)))"},
 	{"when", "(when (listp x) (unless (null x) (print (car x))) (cdr x))"},
@@ -1010,6 +1073,26 @@ var c19PPSweep = []struct{ head, src string }{
 	{"unwind-protect", "(unwind-protect (risky) (cleanup 1) (cleanup 2))"},
 	{"string", "(list \"a \\\"quoted\\\" string\" \"new\nline\" #\\a #\\Space 'sym :key)"},
 	{"number", "(list 1 -2 3/4 1.5 -2.5e10 123456789012345678901234567890 1.0s0)"},
+	{"function-ref", "(mapcar #'car (list (function cdr) #'(lambda (x) x)))"},
+	{"quote-nil", "(list (quote nil) (quote ()) 'a)"},
+	{"quote-t", "(list (quote t) 'a)"},
+	// documentation strings in every layout that has one
+	{"defun-doc", "(defun f (x) \"Doc.\" x)"},
+	{"defun-doc-long", "(defun f (x) \"A documentation string of several words that has to be wrapped at narrow margins.\" x)"},
+	{"defun-doc-quote", "(defun f (x) \"Says \\\"hello\\\" and a back\\\\slash.\" x)"},
+	{"defun-doc-underscore", "(defun f (x) \"Returns _x_ unchanged.\" x)"},
+	{"defun-doc-newline", "(defun f (x) \"Line one.\nLine two.\" x)"},
+	{"defmacro-doc-long", "(defmacro m (x) \"A documentation string of several words that has to be wrapped at narrow margins.\" x)"},
+	{"lambda-doc-long", "(lambda (x) \"A documentation string of several words that has to be wrapped at narrow margins.\" x)"},
+	{"defvar-doc-long", "(defvar v 1 \"A documentation string of several words that has to be wrapped at narrow margins.\")"},
+	{"defmethod-doc-long", "(defmethod (fl :m) (x) \"A documentation string of several words that has to be wrapped at narrow margins.\" x)"},
+	{"defgenmethod-doc-long", "(defmethod g ((x fixnum)) \"A documentation string of several words that has to be wrapped at narrow margins.\" x)"},
+	{"defgeneric-method-doc-long", "(defgeneric g (x) (:method ((x fixnum)) \"A documentation string of several words that has to be wrapped at narrow margins.\" x))"},
+	{"defgeneric-doc-long", "(defgeneric g (x) (:documentation \"A documentation string of several words that has to be wrapped at narrow margins.\"))"},
+	{"defclass-doc-long", "(defclass c () ((s :initarg :s :documentation \"A documentation string of several words that has to be wrapped at narrow margins.\")) (:documentation \"Another documentation string of several words that has to be wrapped.\"))"},
+	{"defflavor-doc-long", "(defflavor f (a) () (:documentation \"A documentation string of several words that has to be wrapped at narrow margins.\"))"},
+	{"defpackage-doc-long", "(defpackage \"p\" (:documentation \"A documentation string of several words that has to be wrapped at narrow margins.\"))"},
+	{"let-nested", "(let ((a-long-variable-name (let ((a-long-variable-name (let ((a-long-variable-name (let ((a-long-variable-name (let ((a-long-variable-name (let ((a-long-variable-name (let ((a-long-variable-name (let ((a-long-variable-name (let ((a-long-variable-name (let ((a-long-variable-name (let ((a-long-variable-name (let ((a-long-variable-name (let ((a-long-variable-name (let ((a-long-variable-name (let ((a-long-variable-name (let ((a-long-variable-name (let ((a-long-variable-name (let ((a-long-variable-name (let ((a-long-variable-name (let ((a-long-variable-name (let ((a-long-variable-name (let ((a-long-variable-name (let ((a-long-variable-name (let ((a-long-variable-name (let ((a-long-variable-name (let ((a-long-variable-name (let ((a-long-variable-name (let ((a-long-variable-name (let ((a-long-variable-name (let ((a-long-variable-name (let ((a-long-variable-name (let ((a-long-variable-name (let ((a-long-variable-name (let ((a-long-variable-name (let ((a-long-variable-name (let ((a-long-variable-name (let ((a-long-variable-name (let ((a-long-variable-name 'a)) 1))) 1))) 1))) 1))) 1))) 1))) 1))) 1))) 1))) 1))) 1))) 1))) 1))) 1))) 1))) 1))) 1))) 1))) 1))) 1))) 1))) 1))) 1))) 1))) 1))) 1))) 1))) 1))) 1))) 1))) 1))) 1))) 1))) 1))) 1))) 1))) 1))) 1)"},
 }
 
 // random code: a small grammar over the pp heads, names from a pool
@@ -1062,7 +1145,8 @@ func c19RandCode(r *lib.Rng, depth int) string {
 	case 6:
 		return fmt.Sprintf("(dolist (%s %s) %s)", v(), e(), body())
 	case 7:
-		return fmt.Sprintf("(lambda (%s &optional (%s %s)) %s)", v(), v(), atom(), body())
+		// the first body form is a call: a string there would be a documentation string
+		return fmt.Sprintf("(lambda (%s &optional (%s %s)) (list %s) %s)", v(), v(), atom(), e(), body())
 	case 8:
 		return fmt.Sprintf("(block %s %s (return-from %s %s))", "blk", body(), "blk", e())
 	case 9:
@@ -1078,7 +1162,7 @@ func c19RandCode(r *lib.Rng, depth int) string {
 	case 14:
 		return fmt.Sprintf("(make-instance 'thing :a %s :b %s)", e(), e())
 	case 15:
-		return fmt.Sprintf("(funcall (lambda (%s) %s) %s)", v(), e(), e())
+		return fmt.Sprintf("(funcall (lambda (%s) (list %s)) %s)", v(), e(), e())
 	case 16:
 		return fmt.Sprintf("(with-output-to-string (s) %s)", body())
 	default:
@@ -1086,11 +1170,14 @@ func c19RandCode(r *lib.Rng, depth int) string {
 	}
 }
 
-func c19RandDef(r *lib.Rng) (head, src string) {
+func c19RandDef(r *lib.Rng, shortDoc bool) (head, src string) {
 	b := func() string { return c19RandCode(r, 1+r.Intn(3)) }
 	doc := ""
 	if r.Chance(50) {
 		doc = fmt.Sprintf(" %q", c19StrPool[1+r.Intn(2)]+" documentation text")
+		if shortDoc {
+			doc = " \"Doc.\"" // one word: documentation strings are re-wrapped (listed finding)
+		}
 	}
 	switch r.Intn(9) {
 	case 0:
@@ -1106,10 +1193,10 @@ func c19RandDef(r *lib.Rng) (head, src string) {
 	case 5:
 		return "defmethod", fmt.Sprintf("(defmethod gen-%d ((x fixnum) (y string) &optional n)%s %s)", r.Intn(100), doc, b())
 	case 6:
-		return "defgeneric", fmt.Sprintf("(defgeneric gen-%d (x y) (:documentation \"generic\") (:method ((x fixnum) (y t)) %s) (:method ((x string) (y list)) %s %s))", r.Intn(100), b(), b(), b())
+		return "defgeneric", fmt.Sprintf("(defgeneric gen-%d (x y) (:documentation \"Generic.\") (:method ((x fixnum) (y t)) %s) (:method ((x string) (y list)) %s %s))", r.Intn(100), b(), b(), b())
 	case 7:
 		return "defclass", fmt.Sprintf("(defclass cl-%d (base-%d) ((x :initarg :x :initform %s :accessor cl-x) (y :reader cl-y))%s)", r.Intn(100), r.Intn(5), c19RandCode(r, 0),
-			[]string{"", " (:documentation \"a class\")"}[r.Intn(2)])
+			[]string{"", " (:documentation \"Class.\")"}[r.Intn(2)])
 	default:
 		return "defconstant", fmt.Sprintf("(defconstant +k-%d+ %s%s)", r.Intn(100), b(), doc)
 	}
@@ -1153,6 +1240,10 @@ func c19RunPP(c *lib.Ctx, cases []c19PPCase, allMargins bool) {
 			fmt.Fprintln(os.Stderr, "c19:", o.Observed)
 			os.Exit(2)
 		}
+		if !cs.sweep && c19IsIndentOverflow(c, o) {
+			c.Ev.Count("composite_indent_overflow_instances", 1)
+			continue
+		}
 		sig := fmt.Sprintf("pp head=%s aspect=%s", cs.Head, o.Aspect)
 		if cs.sweep {
 			sig = fmt.Sprintf("pp cell=%s#%d aspect=%s", cs.Head, c19PPIndex(cs.Src), c19AspectM(o, true))
@@ -1195,13 +1286,17 @@ func runC19(c *lib.Ctx) {
 			(container == "hash-table" && c.Findings.Listed("C19", "value cell=hash-value/"+elem+" ")) ||
 			(container == "list" && c.Findings.Listed("C19", "value cell=list-head/"+elem+" "))
 	}
+	listedV := func(cell string) bool { return c.Findings.Listed("C19", "value cell="+cell+" ") }
+	gctx := c19GenCtx{avoid: avoid, noEmptyVec: listedV("top/empty-vector"),
+		quotedNoHash: listedV("vector/hash-table") || listedV("array/hash-table"),
+		quotedNoFix:  listedV("vector/fixed-vector") || listedV("array/fixed-vector")}
 	// leg A
 	vcases := c19ValueSweep()
 	nRandom := c.Scale(600, 6000)
 	for i := 0; i < nRandom; i++ {
 		var v *c19Val
 		for {
-			v = c19RandVal(c.Rng, 1+c.Rng.Intn(4), avoid)
+			v = c19RandVal(c.Rng, 1+c.Rng.Intn(4), gctx)
 			// a composite case is a container; its kind at top level must not be a listed cell either
 			if v.depth() >= 1 && !c.Findings.Listed("C19", "value cell=top/"+v.kindLabel()+" ") {
 				break
@@ -1218,7 +1313,7 @@ func runC19(c *lib.Ctx) {
 	nCode := c.Scale(400, 4000)
 	for i := 0; i < nCode; i++ {
 		if c.Rng.Chance(50) {
-			h, src := c19RandDef(c.Rng)
+			h, src := c19RandDef(c.Rng, c.Findings.Listed("C19", "pp cell=defun-doc-long#0 "))
 			if c.Findings.Listed("C19", "pp cell="+h+"#") {
 				continue
 			}
